@@ -190,7 +190,12 @@ def e2e_part(spec, part):
     tagtxt = f"{fam} port={port} {variant}"
 
     async def flow(loop):
-        inv = models.family_cls(g, fam)("inv0", port, 0, 1, 0)
+        inv = models.family_cls(g, fam)("inv0", port, 0, 1, 1)
+        if spec.get("slow"):
+            # kept-alive connection and an inverter that answers 0.6 timeouts late (in time): an earlier request's timer that was
+            # left armed would expire inside the following request and make the library send the write twice
+            inv.set_keep_alive(True)
+            sim.delay = 0.6
         await inv.read_device_info()
         st = list(inv.settings())
         rnd.shuffle(st)
@@ -278,9 +283,9 @@ def plan(tier, seed):
     per = 10 if tier == "quick" else 120
     for fam, port, variant in (("ET", 8899, "v2"), ("ET", 502, "v2"), ("ET", 8899, "v1"), ("ET", 502, "v1"), ("DT", 8899, "v2"),
                                ("DT", 502, "v2"), ("ES", 8899, "v1"), ("ES", 8899, "v2")):
-        for k in range(1 if tier == "quick" else 4):
+        for k in range(2 if tier == "quick" else 4):
             specs.append({"mode": "e2e", "seed": f"{seed}:C17:e2e:{fam}:{port}:{variant}:{k}", "family": fam, "port": port,
-                          "variant": variant, "n": 40, "per_setting": per,
+                          "variant": variant, "n": 40, "per_setting": per if k != 1 else max(3, per // 3), "slow": k == 1,
                           "tag": {"ET": ["ETU", "ETT", "EHU", "BTU"], "DT": ["DTU", "DSN", "MSU", "DTS"], "ES": ["ESU"] * 4}[fam][k]})
     return specs
 
